@@ -42,7 +42,7 @@ def canon_answers(answers):
 def source_of(case):
     return case.get('source') or ast_io.program_text(case['clauses'])
 
-class QueryBudget(Exception):
+class QueryBudget(BaseException):   # not an Exception: code under test that catches Exception must not swallow it
     pass
 
 # ---- object identity of variables that findall/3 collects from different answers
